@@ -37,7 +37,8 @@ EXTENDS Rec, RangeSem, FiniteSets
 
 MW0(table, tape, budget, flags) ==
   [store |-> <<>>, log |-> <<>>, tape |-> tape, budget |-> budget, panic |-> "", fuel |-> 400,
-   cos |-> <<>>, table |-> table, flags |-> flags]
+   cos |-> <<>>, table |-> table, flags |-> flags,
+   gg |-> [hs |-> <<>>, pos |-> 0]]     \* state of the flattening consumer of a generator of generators (family gg)
 
 \* ---------------------------------------------------------------- store / environments
 Alloc(w, v) == [id |-> Len(w.store) + 1, w |-> [w EXCEPT !.store = Append(@, v)]]
@@ -112,7 +113,7 @@ ToLabel(k, lab) == IF Head(k).t \in {"loop", "range"} /\ LabOf(Head(k)) = lab TH
 ToLoop(k) == IF Head(k).t \in {"loop", "range"} THEN k ELSE ToLoop(Tail(k))
 PastBreakTarget(k) == IF Head(k).t \in {"loop", "range", "sw"} THEN Tail(k) ELSE PastBreakTarget(Tail(k))
 PostFrames(lp) == IF lp.t = "range" \/ IsNone(lp.post) THEN <<>> ELSE <<[t |-> "seq", ss |-> <<lp.post>>, env |-> lp.env]>>
-IsYielding(s) == ~IsNone(s) /\ s.k \in {"yield", "yfrom", "yfromit"}
+IsYielding(s) == ~IsNone(s) /\ s.k \in {"yield", "yfrom", "yfromit", "ygen"}
 
 SetK(w, i, k) == [w EXCEPT !.cos[i].k = k]
 
@@ -339,6 +340,12 @@ Run(i, w) ==
       [] s.k = "yield" -> LET e == EvalV(s.v, env, w) IN
                           IF Panicked(e.w) THEN [st |-> "panic", w |-> e.w]
                           ELSE [st |-> "yield", w |-> [SetK(e.w, i, k1) EXCEPT !.cos[i].cur = e.v]]
+      \* Yield(Dg(r, arg, b)) in a generator of GENERATORS: a new instance is created (nothing of it runs) and its
+      \* handle -- here: its instance number -- is the yielded value
+      [] s.k = "ygen"  -> LET e == EvalV(s.arg, env, w) IN
+                          IF Panicked(e.w) THEN [st |-> "panic", w |-> e.w]
+                          ELSE LET sp == Spawn(SetK(e.w, i, k1), s.g, e.v, Get(e.w, env, "b")) IN
+                               [st |-> "yield", w |-> [sp.w EXCEPT !.cos[i].cur = sp.id]]
       [] s.k = "yfrom" -> \* the argument is evaluated once, when the statement is reached
                           LET e  == EvalV(s.arg, env, w) IN
                           IF Panicked(e.w) THEN [st |-> "panic", w |-> e.w]
@@ -406,7 +413,7 @@ Run(i, w) ==
 
 \* ---------------------------------------------------------------- syntax helpers
 RECURSIVE HasY(_), HasYS(_)
-HasYS(s) == CASE s.k \in {"yield", "yfrom", "yfromit", "nestgen"} -> TRUE
+HasYS(s) == CASE s.k \in {"yield", "yfrom", "yfromit", "nestgen", "ygen"} -> TRUE
               [] s.k = "unsup" -> UnsupYields(s.u)
               [] s.k = "if"     -> HasY(s.a) \/ HasY(s.b)
               [] s.k = "switch" -> \E j \in 1..Len(s.cases) : HasY(s.cases[j].body)
@@ -414,4 +421,23 @@ HasYS(s) == CASE s.k \in {"yield", "yfrom", "yfromit", "nestgen"} -> TRUE
               [] s.k = "for"    -> IsYielding(s.init) \/ IsYielding(s.post) \/ HasY(s.body)
               [] OTHER -> FALSE
 HasY(ss) == \E j \in 1..Len(ss) : HasYS(ss[j])
-=============================================================================
+\* ---------------------------------------------------------------- a consumer of a generator of generators
+\* (rt.GGIt): it keeps every handle the outer generator (instance 1) has delivered and, per MoveNext, performs
+\* actions in cyclic order  outer, handle 1, ..., handle n  until one of the INNER iterators delivers a value
+\* (returned) or a whole cycle was unproductive (false). Exhausted iterators are advanced again in every cycle:
+\* they must stay exhausted, and no iterator may be disturbed by the others.
+RECURSIVE GGStep(_, _)
+GGStep(w, idle) ==
+  LET g == w.gg n == Len(g.hs) IN
+  IF Panicked(w) \/ idle > n THEN [ok |-> FALSE, cur |-> 0, w |-> w]
+  ELSE IF g.pos = 0 THEN
+    LET r == Adv(1, w) IN
+    IF Panicked(r.w) THEN [ok |-> FALSE, cur |-> 0, w |-> r.w]
+    ELSE IF r.ok THEN GGStep([r.w EXCEPT !.gg = [hs |-> Append(g.hs, r.w.cos[1].cur), pos |-> 1]], 0)
+    ELSE GGStep([r.w EXCEPT !.gg.pos = IF n = 0 THEN 0 ELSE 1], idle + 1)
+  ELSE
+    LET h == g.hs[g.pos] r == Adv(h, w) nxt == (g.pos + 1) % (n + 1) IN
+    IF Panicked(r.w) THEN [ok |-> FALSE, cur |-> 0, w |-> r.w]
+    ELSE IF r.ok THEN [ok |-> TRUE, cur |-> r.w.cos[h].cur, w |-> [r.w EXCEPT !.gg.pos = nxt]]
+    ELSE GGStep([r.w EXCEPT !.gg.pos = nxt], idle + 1)
+========================================================================
